@@ -28,6 +28,8 @@ FIXED = [
  ("C06", "4285218", "compose(M1, M2) for two measurement processes multiplied hs2 @ hs1 and reported shape1+shape2: bracketings of M_a.M_b.rho disagreed"),
  ("C06", "330b3b3", "Povm.generate_mprocess(mode_backaction=1) used rows of the eigenvector matrix without conjugate: to_povm round trip failed / raised"),
  ("C06", "2a78890", "post-measurement states divided by the renormalised probability after eps_zero truncation: trace != 1, State constructor raised"),
+ ("C15", "26bcf7f", "StandardPovmt.generate_empi_dists_sequence spelt its keyword seed_or_genrator: execute_simulation / generate_empi_dists_and_calc_estimate with a Povm as the unknown raised TypeError"),
+ ("C12", "bd3d6fb", "mode_weight='unbiased_inverse_covariance' accepted by the option class but without a branch in _set_weights_by_mode: the mode silently configured nothing (found by the theorem about the generated mode table)"),
 ]
 findings = []
 for f in sorted(glob.glob(os.path.join(HERE, "known_findings.d", "*.json"))):
